@@ -1,8 +1,16 @@
 //! Shared helpers for the correspondence harness binaries (one binary per property family).
+//! `common` and `gens` are used by every binary.  Each family's environment module is behind a
+//! cargo feature that only that family's binaries require, so that a change in /repo (or an edit
+//! here) that stops one family's module from compiling cannot take the other families' checks down.
 pub mod common;
 pub mod gens;
+#[cfg(feature = "fam-server")]
 pub mod rpc_env;
+#[cfg(feature = "fam-subs")]
 pub mod subs_env;
-pub mod client_mock;
+#[cfg(feature = "fam-client")]
 pub mod client_faults;
+#[cfg(feature = "fam-client")]
+pub mod client_mock;
+#[cfg(feature = "fam-conn")]
 pub mod server_env;
